@@ -237,12 +237,42 @@ def correspondence(ctx):
             "disagreements": dis}
 
 
+KF_EMPTY = "C16-hash-set-many-empty-skips-expire-check"
+
+
+def finding_of(stack, c, ops, why):
+    """the listed finding this difference is an instance of, or None"""
+    import re
+    m = re.match(r"call (\d+) ", why or "")
+    if not (stack.startswith("HashClient") and m):
+        return None
+    op = ops[int(m.group(1))]
+    if op[0] == 1 and len(op[1]) == 0 and not isinstance(op[2], int):
+        # HashClient.set_many with no items never reaches a Client, so Client's check of `expire` is skipped: confirm on the one-call history
+        w = compare(stack, c, [op])
+        if w and "MemcacheIllegalInputError" in w and "('o', ('list', []))" in w:
+            return KF_EMPTY
+    return None
+
+
 def search(ctx):
     """The property on the real classes: every stack against a plain Client, same configuration, same byte-level server."""
     found = []
     n = 0
     seqs = sequences(ctx)
     allc = cfgs()
+
+    def record(stack, c, ops, why):
+        found.append({"clause": why, "finding": finding_of(stack, c, ops, why), "input": {"stack": stack, "cfg": repr(c), "ops": repr(ops)},
+                      "size": len(ops) + len(repr(c)) / 1000.0, "case": repr((stack, c, ops))})
+    # the listed finding's own probe (both tiers): an empty set_many with an expire that is not an integer
+    for stack in STACKS:
+        if stack.startswith("HashClient"):
+            n += 1
+            ops = [(1, [], "x", False, None)]
+            why = compare(stack, allc[0], ops)
+            if why:
+                record(stack, allc[0], ops, why)
     for si, ops in enumerate(seqs):
         for ci, c in enumerate(allc):
             if si >= len(grid_ops()) and (si + ci) % (8 if ctx.quick else 2):
@@ -253,26 +283,31 @@ def search(ctx):
                 n += 1
                 why = compare(stack, c, ops)
                 if why:
-                    found.append({"clause": why, "input": {"stack": stack, "cfg": repr(c), "ops": repr(ops)}, "size": len(ops) + len(repr(c)) / 1000.0,
-                                  "case": repr((stack, c, ops))})
-        if len(found) > 40:
+                    record(stack, c, ops, why)
+        if len([v for v in found if not v["finding"]]) > 40:
             break
-    # shrink the smallest: drop operations while the difference persists
+    # shrink the smallest unlisted one: drop operations while the difference persists
     found.sort(key=lambda v: v["size"])
-    if found:
-        stack, c, ops = eval(found[0]["case"])
+    unlisted = [v for v in found if not v["finding"]]
+    if unlisted:
+        stack, c, ops = eval(unlisted[0]["case"])
         changed = True
         while changed and len(ops) > 1:
             changed = False
             for i in range(len(ops)):
                 trial = ops[:i] + ops[i + 1:]
                 why = compare(stack, c, trial)
-                if why:
+                if why and not finding_of(stack, c, trial, why):
                     ops, changed = trial, True
-                    found[0] = {"clause": why, "input": {"stack": stack, "cfg": repr(c), "ops": repr(ops)}, "size": len(ops), "case": repr((stack, c, ops))}
+                    unlisted[0] = {"clause": why, "finding": None, "input": {"stack": stack, "cfg": repr(c), "ops": repr(ops)}, "size": len(ops), "case": repr((stack, c, ops))}
                     break
     ctx.search_summary = {"stack_vs_client_comparisons": n, "sequences": len(seqs), "configurations": len(allc), "stacks": STACKS}
-    return found[:1]
+    out, seen = unlisted[:1], set()
+    for v in found:
+        if v["finding"] and v["finding"] not in seen:
+            seen.add(v["finding"])
+            out.append(v)
+    return out
 
 
 def replay(ctx, obj):
